@@ -27,7 +27,12 @@ func owns(prop, oracle string) bool {
 		// "when stacking or verification of that value fails, it returns that
 		// error and the view is unchanged": a nil return with an unverified
 		// version installed is that clause broken
-		return oracle == "C04.visible-unverified"
+		// ("the reported value has been stacked and the resulting config is what
+		// View returns": the result of stacking is the stack of ALL slots as they
+		// are at that moment - a version composed from a stale slot, or differing
+		// from the fresh stack, is not it, and a nil return for it hides a stack
+		// that may not have verified)
+		return oracle == "C04.visible-unverified" || oracle == "C05.stale-slot" || oracle == "C05.fresh-stack" || oracle == "C05.model"
 	case "C09":
 		// "OnWatchedError ... withheld only while the delay is in force and the
 		// suppress option is set": rejections after enabling must be delivered
